@@ -660,6 +660,13 @@ func runDC(r *runner, work *choice.Source, repair, forceBig bool) (fs []Finding)
 			got = mk(solid, buf, maxGos).Mesh()
 		}
 	}); f != nil {
+		if repair && strings.HasPrefix(f.Sig, "panic|") {
+			// Repair=true runs the very same configuration twice.  The first run
+			// returned a mesh, this one panics: the two runs differ - the listed known
+			// finding (Repair's walk over Go maps decides what it meets), here to the
+			// point where one of them reaches the spot where Repair gives up.
+			return []Finding{{"dc|repair-repeat", fmt.Sprintf("%s: two runs of the same configuration differ: the first returns a mesh of %d faces, the second panics (%s)", r.st.Desc, refMesh.NumTriangles(), f.Sig)}}
+		}
 		return []Finding{*f}
 	}
 	r.st.Calls = cnt.Calls
